@@ -1,0 +1,10 @@
+//go:build !verif
+// +build !verif
+
+// Package verifhook is a verification seam: with the build tag "verif" the
+// library reports the instrumented points it passes to an external simulator.
+// Without the tag Point is an empty function and the library is unchanged.
+package verifhook
+
+// Point does nothing unless the library is built with the "verif" tag.
+func Point(string) {}
